@@ -92,7 +92,9 @@ impl<'a> Ep<'a> {
         t.next_episode();
         let ty = tok::type_str(cols[0].data_type());
         let ty = if ty.len() > 60 { format!("{}..", &ty[..60]) } else { ty };
-        let keys: Vec<Value> = cols.iter().map(|c| key::column(c.as_ref(), Unions::Lift)).collect();
+        // an input array that cannot even be read (a panic of an accessor) leaves an empty column: the calls
+        // on it are then rejected by TLC instead of crashing the driver
+        let keys: Vec<Value> = cols.iter().map(|c| guarded(|| key::column(c.as_ref(), Unions::Lift)).unwrap_or_else(|_| json!([]))).collect();
         t.emit(json!({"op": "new", "ty": ty, "note": note, "cols": keys}));
         st.events += 1;
         st.episodes += 1;
@@ -813,7 +815,7 @@ fn exhaustive(rng: &mut Rng, args: &Args, t: &mut Shards, st: &mut Stats, domain
                     x
                 })
                 .collect();
-            let col = arrow_select::take::take(domain.as_ref(), &UInt32Array::from(idx), None).unwrap();
+            let Ok(Ok(col)) = guarded(|| arrow_select::take::take(domain.as_ref(), &UInt32Array::from(idx), None)) else { continue };
             let n = col.len();
             let mut ep = Ep::begin(t, st, vec![col], "exhaustive");
             // quick tier: two of the four option combinations per column
